@@ -211,9 +211,43 @@ func convertToDataNode(path []string, name string, node unserialized, sn schema.
 				return nil, err
 			}
 		}
+		// (below a list the names are those of its entries, not of schema nodes)
+		if _, isList := sn.(schema.List); !isList {
+			if err := checkOneCasePerChoice(path, sn, seen); err != nil {
+				return nil, err
+			}
+		}
 	}
 
 	return datanode.CreateDataNode(name, children, vals), nil
+}
+
+// At most one case of a choice may have nodes in the tree (RFC 6020 7.9):
+// a document that gives nodes of two cases does not describe a data tree.
+func checkOneCasePerChoice(path []string, sn schema.Node, present map[string]bool) error {
+	for _, ch := range sn.Choices() {
+		active := false
+		for _, ca := range ch.Choices() {
+			var first string
+			for _, n := range ca.Children() {
+				if present[n.Name()] {
+					first = n.Name()
+					break
+				}
+			}
+			if first == "" {
+				continue
+			}
+			if active {
+				return schema.NewNodeExistsError(append(path, first))
+			}
+			active = true
+			if err := checkOneCasePerChoice(path, ca, present); err != nil {
+				return err
+			}
+		}
+	}
+	return nil
 }
 
 func validateDataNode(
